@@ -20,8 +20,8 @@ LEVEL_NOTE = ("Model fidelity is checked, not proved. The neglect of diffraction
               "Mathlib has no erf: the peak theorem ends at (1/x)∫₀ˣe^{−u²}du, whose identification with √π·erf(x)/(2x) is the definition "
               "of erf; the harness evaluates erf by its Maclaurin series. Layered correspondence: indices, theta_external, waists, "
               "walk-off angle, k_eff, apodisation weights, and (for half_dkz_l) the crate's own delta_k are inputs/observations of lower layers.")
-OPS = {"pm_integrand", "pm_coinc", "half_dkz_l"}
-TOL = {"pm_integrand": ("crel", 1e-11), "pm_coinc": ("csum", 1e-10), "half_dkz_l": ("rel", 1e-9, 1e-7)}
+OPS = {"pm_integrand", "pm_coinc", "pm_coinc_gl", "half_dkz_l"}
+TOL = {"pm_integrand": ("crel", 1e-11), "pm_coinc": ("csum", 1e-10), "pm_coinc_gl": ("csum", 1e-10), "half_dkz_l": ("rel", 1e-9, 1e-7)}
 DEFAULT_TOL = ("exact",)
 RULE = ("family pm/k: random GENERAL setups (non-collinear, small waists, elliptical pump, poled with every apodisation kind and "
         "unpoled, all 5 PM types × 11 crystals) × 2 frequency pairs: integrand at z = −1, 1, 0 and two random z; Simpson z-integral for "
